@@ -57,6 +57,17 @@ class Disk:
         self.last = max(0, self.capacity - self.used() - reserved)
         return self.last
 
+    failing = False      # the OS call behind get_disk_stats fails (EIO on a flaky disk): the server must assume "no room"
+
+    def stats(self, whichdir, reserved_space=0):
+        """stand-in for fileutil.get_disk_stats (the real get_available_space sits on top of it)"""
+        if self.failing:
+            import errno
+            raise OSError(errno.EIO, "injected: statvfs failed")
+        free = max(0, self.capacity - self.used())
+        return {"total": self.capacity, "free_for_root": free, "free_for_nonroot": free, "used": self.used(),
+                "avail": max(free - reserved_space, 0)}
+
 
 def b2l(b):
     return list(b)
@@ -76,7 +87,7 @@ class Scenario:
         self.profile = profile
         self.dir = tempfile.mkdtemp(prefix="srv", dir=workdir)
         self.disk = Disk(self)
-        fileutil.get_available_space = self.disk
+        fileutil.get_disk_stats = self.disk.stats        # fileutil.get_available_space itself stays the real one
         self.writers = {}
         self.wstate = {}      # wid -> {"written": set(), "final": bool}
         self.reserved = rng.choice([0, 0, 7, 1000])
@@ -173,7 +184,7 @@ class Scenario:
         return n
 
     def avail(self):
-        return 0 if self.readonly else max(0, self.disk.capacity - self.bytes_on_disk() - self.reserved)
+        return 0 if (self.readonly or self.disk.failing) else max(0, self.disk.capacity - self.bytes_on_disk() - self.reserved)
 
     def log(self, ev, si=None, **kw):
         e = {"ev": ev}
@@ -315,6 +326,12 @@ class Scenario:
             return
         if not self.limited and r.random() < 0.7:
             return
+        if self.disk.failing or r.random() < 0.12:
+            # the disk statistics call starts / stops failing: while it fails the server has to act as if nothing were free
+            self.disk.failing = not self.disk.failing
+            if self.disk.failing:
+                self.log("SetFree", capacity=0, statvfs="fails")
+                return
         self.disk.capacity = self.reserved + r.randint(0, 14)
         self.log("SetFree", capacity=self.disk.capacity)
 
